@@ -120,7 +120,8 @@ class Eng(object):
         self.in_auth = False
         self.in_callback = False
         self.sending = b''
-        self.callbacks = []             # ('M', i, c, p) / ('E', text)
+        self.callbacks = []             # (socket, 'M', i, c, p) / (socket, 'E', text)
+        self.snaps = []                 # (line index, pc, socket, bytes received, callbacks made, run reads)
         self.crashed = False
         self.excs = []
         eng = self
@@ -204,6 +205,9 @@ class Eng(object):
             len(c.unpacker.buf) if c is not None and hasattr(c, 'unpacker') else 0, ','.join(hexf(x) for x in subs))
         self.lines.append(';'.join(self.cur) + ' | ' + st)
         self.cur = []
+        sk = getattr(c, 's', None)
+        if isinstance(sk, ScriptSock):
+            self.snaps.append((len(self.lines) - 1, pc, sk.k, len(sk.recvd), sum(1 for x in self.callbacks if x[0] == sk.k), sk.run_reads))
 
     def answer(self, kind, sock):
         """the client blocks in `kind`: finish the line of the event being handled, then take the next event(s)"""
@@ -508,6 +512,15 @@ def check_callbacks(res, eng, script):
             n = next((i for i, (a, b) in enumerate(zip(got, exp)) if a != b), min(len(got), len(exp)))
             res.violation('C12', 'callback-sequence', 'blocking Client.run, connection %d: callback #%d is %r; the PUBLISH/ERROR frames received on it are %r ...' % (k, n, tuple(str(x)[:20] for x in got[n]) if n < len(got) else None, [tuple(str(x)[:20] for x in e) for e in exp[:n + 1]]), script)
             continue
+        # promptness: whenever run() goes back to recv() it has made the callback of every frame that is complete
+        # (any prefix of a history is a history: if nothing more arrives, a withheld frame is never handed over)
+        if script.get('legal'):
+            for (li, pc, sk, nbytes, ncb, reads) in eng.snaps:
+                if sk == k and pc == 'runrecv' and reads > 0:
+                    owed = len(expected_callbacks(eng.socks[k].recvd[:nbytes]))
+                    if ncb < owed:
+                        res.violation('C12', 'message-withheld', 'blocking Client.run went back to recv() on connection %d (event %d) having received %d complete PUBLISH/ERROR frame(s) but made only %d callback(s): if nothing more arrives they are never handed over' % (k, li, owed, ncb), script)
+                        break
         is_last = idx == len(ks) - 1
         # nothing in flight on the live connection: every complete frame must have been dispatched (frames that
         # arrived in the same recv() as OP_INFO are parked until run()'s next read completes)
